@@ -50,7 +50,7 @@ EXPECTED_PROBES = ["tzlocal_judged", "tzlocal_stale_not_judged",
                    "southern_hemisphere", "half_hour_saving",
                    "two_hour_saving", "rule.J", "rule.N", "rule.M5",
                    "rule_time_24", "malformed_rejected", "gmt_plus",
-                   "no_dst_fixed", "glibc_consulted",
+                   "no_dst_fixed", "glibc_consulted", "far_year_model_only",
                    "gmt_named_with_dst_rules"]
 
 REAL = ['dateutil.tz tzstr/tzrange/tzlocal/gettz, the TZ-string parser, relativedelta from /repo/src', "glibc tzset/localtime under the real TZ environment variable (second oracle and tzlocal's back end)", 'real OS threads in the threads class']
@@ -168,7 +168,8 @@ def generate(cls, rng):
             handles += 1
         elif r < 0.88:
             ops.append(["query", "h%d" % rng.randrange(handles),
-                        rng.choice(YEARS),
+                        rng.choice(FAR_YEARS) if rng.random() < 0.07
+                        else rng.choice(YEARS),
                         rng.choice(["start", "end"]),
                         rng.choice([-86400, -1800, -1, 0, 1, 1800, 86400, -0.5, -0.000001,
                                     0.25, 15, 31, 46,
@@ -339,7 +340,8 @@ def judge(env, ctx, h, ts):
                       else "gmt_named_fixed")
             spec = rd
     want = PX.at(spec, ts)
-    glibc = want if flipped else env.glibc_at(i, ts)
+    far = not (GLIBC_LO <= ts < GLIBC_HI)
+    glibc = want if (flipped or far) else env.glibc_at(i, ts)
     if glibc != want:
         # the two oracles disagree: the harness, not dateutil, is at fault
         raise RuntimeError("POSIX model and glibc disagree for %r at %d: "
@@ -375,6 +377,17 @@ def judge(env, ctx, h, ts):
 # three-way comparison has no libc side there.
 YEARS = [1999, 2000, 2023, 2024, 1999, 2000, 2023, 2024, 1971, 1972, 2037,
          2038, 2099, 2100, 2101, 2104, 2200, 2400]
+
+# the first and last representable years, and years before the epoch: the
+# POSIX model alone is the oracle there (a TZ string's rules apply to every
+# year; libc has its own reading before 1970). Instants are kept three days
+# inside the representable range so that every local reading exists.
+FAR_YEARS = [1, 1, 2, 4, 1582, 1600, 1900, 1969, 9996, 9998, 9999, 9999]
+_E = datetime.datetime(1970, 1, 1)
+FAR_LO = int((datetime.datetime(1, 1, 4) - _E).total_seconds())
+FAR_HI = int((datetime.datetime(9999, 12, 28) - _E).total_seconds())
+GLIBC_LO = int((datetime.datetime(1971, 1, 1) - _E).total_seconds())
+GLIBC_HI = int((datetime.datetime(2401, 1, 1) - _E).total_seconds())
 
 MALFORMERS = {
     "surplus_rule": lambda s: s + ",M1.1.0",
@@ -584,13 +597,21 @@ def execute(cls, scenario, ctx):
                 if env.handles[h][1] in ("tzstr", "gettz"):
                     spec = PX.dateutil_reading(spec) or spec
                 if spec.get("dst"):
-                    a, b = PX.transitions_utc(spec, year)
+                    try:
+                        a, b = PX.transitions_utc(spec, year)
+                    except OverflowError:
+                        continue      # rule instant beyond the last year
                     ts = (a if which == "start" else b) + delta
                 else:
                     ts = int((datetime.datetime(year, 6, 1) -
                               datetime.datetime(1970, 1, 1)).total_seconds()
                              ) + delta
                     ctx.probe("no_dst_fixed")
+                if year in FAR_YEARS:
+                    if env.handles[h][1] == "tzlocal":
+                        continue      # libc's reading: not before 1970
+                    ts = min(max(ts, FAR_LO), FAR_HI)
+                    ctx.probe("far_year_model_only")
                 if judge(env, ctx, h, ts):
                     judged += 1
                 ctx.state("query", env.handles[h][1], which,
